@@ -9,8 +9,8 @@
 From Coq Require Import NArith ZArith List Bool String Lia.
 Import ListNotations.
 From Verif.lib Require Import Term.
-From Verif.model Require Import OneTimeSig OneTimeSigSpec.
-From Verif.proofs Require Import OneTimeSigProofs OneTimeSigSpecProofs.
+From Verif.model Require Import OneTimeSig OneTimeSigSpec PartPersist PartPersistSpec.
+From Verif.proofs Require Import OneTimeSigProofs OneTimeSigSpecProofs PartPersistProofs PartPersistSpecProofs.
 Open Scope N_scope.
 
 (* [derivable] means what it should: some signature assembled from held keys (batch keys can
@@ -124,4 +124,156 @@ Example C36_ex_checker_discriminates :
   probe_spec 3 2 [(mkId 4 1, 2)] (mkId 4 0) true false = true /\
   probe_known [(mkId (W - 1) 1, 1)] (mkId 1 0) true = true /\
   probe_known [(mkId (W - 1) 1, 1); (mkId 2 0, 1)] (mkId 1 0) true = false.
+Proof. vm_compute. repeat split; reflexivity. Qed.
+
+(* ======================================================================================== *)
+(* Persistence layer: data/account/participation.go (model/PartPersist.v).
+   State = (mem, disk): part.Voting and the `voting` blob of the participation database (+ the
+   key dilution in both).  [pstep p (PDel r D dbok)] = DeleteOldKeys(r, proto) waited for on the
+   returned channel (delete in memory at OneTimeIDForRound(r,K), snapshot, encode, UPDATE; dbok =
+   does the database write succeed; the report is the channel's value), [PRestart] = process
+   restart = RestoreParticipation, [restored p] = what a restart would load now, [prun] = any
+   list of operations.  [pInv] holds after FillDBWithParticipationKeys and is preserved. *)
+
+Theorem C36P_fill_establishes_inv : forall fv lv K maxp p,
+  fill fv lv K maxp = FillOk p -> lv + 1 < W -> K < W -> pInv p /\ disk p = mem p.
+Proof. exact fill_establishes_inv. Qed.
+Print Assumptions C36P_fill_establishes_inv.
+
+Theorem C36P_inv_preserved : forall ops p, pInv p -> Forall wf_pop ops -> pInv (prun p ops).
+Proof. exact prun_pInv. Qed.
+Print Assumptions C36P_inv_preserved.
+
+(* Forward security of the PERSISTED keys.  Once DeleteOldKeys(r) has reported success -- after
+   any history, and whatever follows (more deletions, failed writes, restarts) -- neither the
+   memory state, nor the database blob, nor what a restart loads holds key material for any
+   round r' < r, and Sign returns the empty signature for it.  Premise [r / K + 1 < W]: the
+   key-level finding c36_batch_wrap (only K = 1, r = 2^64-1). *)
+Theorem C36P_persisted_forward_secure : forall p r D dbok p1 ops' r' m,
+  pInv p -> r < W -> D < W -> Forall wf_pop ops' ->
+  pstep p (PDel r D dbok) = (p1, ROk) ->
+  r / eff_kd (mkd p) D + 1 < W -> r' < r ->
+  let id := id_of_round r' (eff_kd (mkd p) D) in
+  let p' := prun p1 ops' in
+  ~ derivable (mem p') id /\ ~ derivable (disk p') id /\ ~ derivable (restored p') id /\
+  sign (mem p') id m = SigEmpty /\ sign (restored p') id m = SigEmpty.
+Proof. exact persisted_forward_secure. Qed.
+Print Assumptions C36P_persisted_forward_secure.
+
+(* success is reported only for a deletion whose result is what the database now holds *)
+Theorem C36P_report_ok_means_persisted : forall p o p1, pstep p o = (p1, ROk) ->
+  exists r D, o = PDel r D true /\ eff_kd (mkd p) D <> 0 /\ disk p1 = mem p1.
+Proof. exact report_ok. Qed.
+Print Assumptions C36P_report_ok_means_persisted.
+
+(* Availability across restarts.  While the database writes succeed, a node that restarts
+   anywhere, any number of times, signs EXACTLY what the node that never restarts signs (every
+   identifier, every message) -- and so would a node restarted at the end. *)
+Theorem C36P_restart_transparent : forall p ops id m,
+  pInv p -> disk p = mem p -> all_dbok ops ->
+  sign (mem (prun p ops)) id m = sign (mem (prun p (no_restarts ops))) id m /\
+  sign (restored (prun p ops)) id m = sign (mem (prun p (no_restarts ops))) id m.
+Proof. exact restart_transparent. Qed.
+Print Assumptions C36P_restart_transparent.
+
+(* Still signs.  Whatever mix of deletions (also with failed writes) and restarts: every round
+   of [fv,lv] at or above every requested deletion round gets a valid signature, from memory and
+   from a restart. *)
+Theorem C36P_still_signs : forall fv lv K kd ops r' m,
+  K <> 0 -> K < W -> kd < W -> fv <= lv -> lv + 1 < W -> Forall wf_pop ops ->
+  Forall (uses_kd kd K) ops ->
+  fv <= r' -> r' <= lv -> (forall r, In r (del_rounds ops) -> r <= r') ->
+  let s := fill_secrets fv lv K in
+  let p := prun (mkP s kd s kd) ops in
+  let id := id_of_round r' K in
+  verify id m (sign (mem p) id m) = true /\ verify id m (sign (restored p) id m) = true.
+Proof. exact persisted_still_signs. Qed.
+Print Assumptions C36P_still_signs.
+
+(* no operation of the layer creates key material (every state) *)
+Theorem C36P_monotone : forall p o id,
+  (derivable (mem (fst (pstep p o))) id \/ derivable (restored (fst (pstep p o))) id) ->
+  derivable (mem p) id \/ derivable (restored p) id.
+Proof. exact pstep_monotone. Qed.
+Print Assumptions C36P_monotone.
+
+(* basics.OneTimeIDForRound is strictly monotone (hence injective) for every dilution: "round
+   below the deletion round" is exactly "identifier below the deletion point" *)
+Theorem C36P_round_id_monotone : forall r1 r2 K, K <> 0 ->
+  (id_lt (id_of_round r1 K) (id_of_round r2 K) <-> r1 < r2).
+Proof. exact id_of_round_lt_iff. Qed.
+Print Assumptions C36P_round_id_monotone.
+
+Theorem C36P_round_id_wf : forall r K, K <> 0 -> r < W -> K < W ->
+  wf_id (id_of_round r K) /\ ioff (id_of_round r K) < K.
+Proof. exact id_of_round_wf. Qed.
+Print Assumptions C36P_round_id_wf.
+
+(* OverlapsInterval answers "valid at some round of [first,last]" *)
+Theorem C36P_overlaps_spec : forall fv lv first last,
+  (overlaps fv lv first last = None <-> last < first) /\
+  (first <= last -> fv <= lv ->
+   (overlaps fv lv first last = Some true <-> exists r, first <= r <= last /\ fv <= r <= lv)).
+Proof. exact overlaps_spec. Qed.
+Print Assumptions C36P_overlaps_spec.
+
+(* the per-round checker applied to the implementation's observations is the property ... *)
+Theorem C36P_spec_ok_sound : forall fv lv keyed KE hs ha q pm pd vm vd,
+  round_spec fv lv keyed KE hs ha q pm pd vm vd = true <->
+  (fwd_rP KE hs q -> vm = false /\ vd = false) /\
+  (keyed = true -> must_rP fv lv ha q -> vm = true /\ vd = true) /\
+  (vm = true \/ vd = true -> pm = true \/ pd = true).
+Proof. exact round_spec_sound. Qed.
+Print Assumptions C36P_spec_ok_sound.
+
+(* ... and the model satisfies it after every operation of every history, for every round *)
+Theorem C36P_model_meets_spec : forall fv lv K kd D ops o q,
+  K <> 0 -> K < W -> kd < W -> D < W -> eff_kd kd D <> 0 -> fv <= lv -> lv + 1 < W ->
+  Forall wf_pop (ops ++ [o]) -> Forall (uses_kd kd (eff_kd kd D)) (ops ++ [o]) -> q < W ->
+  let KE := eff_kd kd D in
+  let s := fill_secrets fv lv K in
+  let p0 := mkP s kd s kd in
+  let p := prun p0 ops in
+  let p' := prun p0 (ops ++ [o]) in
+  let id := id_of_round q KE in
+  round_spec fv lv (KE =? K) KE (succ_rounds (ops ++ [o])) (del_rounds (ops ++ [o])) q
+             (valid (mem p) id) (valid (restored p) id)
+             (valid (mem p') id) (valid (restored p') id) = true
+  /\ probe (mem p') id = (if valid (mem p') id then 1 else 0)
+  /\ probe (restored p') id = (if valid (restored p') id then 1 else 0).
+Proof. exact pp_model_meets_spec. Qed.
+Print Assumptions C36P_model_meets_spec.
+
+(* ---- non-vacuity: a concrete node history.  fv=2, lv=7, K=3 (batches 0..2).  Advance to round
+   4 (batch 1 expanded), then to round 5 = an OFFSET-ONLY advance inside batch 1, then restart. *)
+Example C36P_ex_history :
+  let s := fill_secrets 2 7 3 in
+  let p0 := mkP s 3 s 3 in
+  let p1 := prun p0 [PDel 4 9 true] in
+  let p2 := prun p0 [PDel 4 9 true; PDel 5 9 true] in
+  let p3 := prun p0 [PDel 4 9 true; PDel 5 9 true; PRestart] in
+  let v p r := valid (mem p) (id_of_round r 3) in
+  let vd p r := valid (restored p) (id_of_round r 3) in
+  fill 2 7 3 0 = FillOk p0 /\ pstep p1 (PDel 5 9 true) = (p2, ROk) /\
+  (* round 4 was signable from memory and from the database before the second deletion ... *)
+  v p1 4 = true /\ vd p1 4 = true /\
+  (* ... and is gone from both afterwards, also after the restart; rounds 5..7 remain *)
+  v p2 4 = false /\ vd p2 4 = false /\ v p3 4 = false /\ v p3 3 = false /\
+  v p3 5 = true /\ v p3 7 = true /\ vd p2 5 = true /\
+  (* the two deletions differ only in FirstOffset / len(Offsets) *)
+  shape (mem p1) = [2; 0; 1; 1; 2] /\ shape (mem p2) = [2; 0; 1; 2; 1] /\
+  (* a failed write: memory advanced, database not, and the report says so *)
+  snd (pstep p1 (PDel 5 9 false)) = RErr /\
+  vd (fst (pstep p1 (PDel 5 9 false))) 4 = true /\ v (fst (pstep p1 (PDel 5 9 false))) 4 = false.
+Proof. vm_compute. repeat split; reflexivity. Qed.
+
+Example C36P_ex_checker_discriminates :
+  (* a round below a reported deletion that still verifies from the database only (skipped
+     write) is rejected; so is a lost round at/above the deletion point, and a reappearing one *)
+  round_spec 2 7 true 3 [5] [5] 4 true true false true = false /\
+  round_spec 2 7 true 3 [5] [5] 4 true true false false = true /\
+  round_spec 2 7 true 3 [5] [5] 6 true true true false = false /\
+  round_spec 2 7 true 3 [] [5] 4 false false true false = false /\
+  (* an unreported (failed) deletion does not bind the database *)
+  round_spec 2 7 true 3 [] [5] 4 true true false true = true.
 Proof. vm_compute. repeat split; reflexivity. Qed.
